@@ -334,6 +334,8 @@ class _G(object):
             aw = rng.randint(1, cfg['rom_aw_max'])
         elif rng.random() < cfg['mem_wide_aw']:
             aw = rng.choice([65, 66, 70])
+        elif cfg.get('mem_mid_aw') and rng.random() < cfg['mem_mid_aw']:
+            aw = rng.choice([9, 10, 12, 16, 31, 32, 33])
         else:
             aw = rng.randint(*cfg['mem_aw'])
         if cfg['mem_bw_classes']:
